@@ -31,6 +31,8 @@ func main() {
 				}
 			}
 		}
+	case "ssa":
+		dumpSSA(os.Args[2:])
 	case "selftest":
 		os.Exit(govc.SelfTestMain(os.Args[2:]))
 	default:
